@@ -1,6 +1,6 @@
 use super::allocator::{BlockAllocator, FileStateTracker};
 use super::reader::Reader;
-use crate::wal::block::Block;
+use crate::wal::block::{Block, metadata_fits};
 #[cfg(target_os = "linux")]
 use crate::wal::block::Metadata;
 use crate::wal::config::{
@@ -172,6 +172,14 @@ impl Writer {
 
         if batch.is_empty() {
             return Ok(());
+        }
+
+        // Same rejection as the single-entry path, before any block is sealed or allocated
+        if !metadata_fits(&self.col) {
+            return Err(std::io::Error::new(
+                std::io::ErrorKind::InvalidData,
+                "metadata too large",
+            ));
         }
 
         // Try to acquire batch write flag
